@@ -116,6 +116,48 @@ def drive(rec, ns, quick):
     rec.data["events"] = events
 
 
+def drive_inverse_first(rec, order):
+    """A fresh process in which an inverse transform is the very first transform (order 0: kernel level, order 1: module level): the
+    inverse of a vector, followed by the forward transform, is the vector again modulo each prime; the inverse DFT of the constant
+    evaluation vector (c, c, ..., c) is the constant polynomial c."""
+    rng = random.Random(rec.seed * 7 + order)
+    L = Lib.get()
+    qc = q120.Q(L)
+    events = []
+    if order == 0:
+        for n in (64, 2, 1024, 16):
+            x = np.array([[rng.randrange(0, 1 << 64) for _ in range(4)] for _ in range(n)], dtype=np.uint64)
+            B = Buf(32 * n, fill=0x11)
+            B.u64[:] = x.reshape(-1)
+            label = "q120 inverse then forward transform n=%d, the first transforms of the process" % n
+            if not rec.progress(label):
+                continue
+            L.fn("q120_intt_bb_avx2", "v pp")(L.fn("q120_new_intt_bb_precomp", "p u")(n), B.addr)
+            L.fn("q120_ntt_bb_avx2", "v pp")(L.fn("q120_new_ntt_bb_precomp", "p u")(n), B.addr)
+            rec.case(("inverse-first", "kernel", n))
+            mism = int((mod_rows(B.u64.reshape(n, 4), qc) != mod_rows(x, qc)).sum()) + (0 if B.canaries_ok() else 1)
+            events.append({"e": "NttSummary", "n": n, "pattern": "inverse-first", "mismatches": mism, "_what": label})
+    else:
+        for n in (64, 2, 1024):
+            mod = L.module(n, NTT120, MASK_NONE)
+            c = rng.randrange(1, 1 << 29)
+            D = Buf(32 * n, fill=0)
+            D.u64[:] = c
+            G = Buf(16 * n, fill=0xEE)
+            label = "vec_znx_idft_tmp_a on an NTT120 module N=%d, the first transform of the process" % n
+            if not rec.progress(label):
+                continue
+            L.call("vec_znx_idft_tmp_a", mod, G, 1, D, 1)
+            rec.case(("inverse-first", "module", n))
+            g = G.u64.reshape(-1, 2)
+            exp = np.zeros(n, dtype=np.int64)
+            exp[0] = c
+            mism = int((g[:, 0].view(np.int64) != exp).sum()) + int((g[:, 1] != 0).sum()) + (0 if G.canaries_ok() else 1)
+            events.append({"e": "NttSummary", "n": n, "pattern": "inverse-first", "mismatches": mism, "_what": label})
+            L.delete_module(mod)
+    rec.data["events"] = events
+
+
 def drive_module(rec, quick):
     """vec_znx_dft -> vec_znx_idft / idft_tmp_a on an NTT120 module: identity on all int64, zero-extended / truncated"""
     rng = random.Random(rec.seed + 5)
@@ -205,7 +247,8 @@ def run(chk, replay=None):
     chk.add_tlc(r, "symbolic schedule n=1..32: evaluation map and inverse")
     ns = [1 << s for s in range(0, 17)]
     parts = [ns[i::6] for i in range(6)]
-    jobs = [("q120 NTT probes n in %s" % p, drive, (p, quick)) for p in parts] + [("NTT120 module round trips", drive_module, (quick,))]
+    jobs = [("q120 NTT probes n in %s" % p, drive, (p, quick)) for p in parts] + [("NTT120 module round trips", drive_module, (quick,))] + \
+           [("inverse transform first in a fresh process (%s level)" % w, drive_inverse_first, (o,)) for o, w in ((0, "kernel"), (1, "module"))]
     res = isolated_many(chk, jobs, timeout=2400, nproc=7)
     events = [ev for d in res if d for ev in d["events"]]
     clean = [{k: v for k, v in ev.items() if not k.startswith("_")} for ev in events]
